@@ -3,4 +3,4 @@ From Coq Require Import QArith.
 Require Extraction.
 Require ExtrOcamlBasic.
 Extraction Language OCaml.
-Extraction "frac_model.ml" new_approx cfg0 cfgF value display read_display table_new lookup Qred Qmult Qplus Qminus.
+Extraction "frac_model.ml" new_approx try_approx try_approx_seq define try_fraction cfg0 cfgF value display read_display table_new lookup Qred Qmult Qplus Qminus.
